@@ -260,7 +260,16 @@ func worldAt(dir string, spec WorldSpec, seed uint64, fresh bool) *World {
 	simos.Install(w.Disk)
 	w.Badger = &simbadger.Faults{FailUpdateAt: map[uint64]bool{}}
 	simbadger.Install(w.Badger)
-	simrt.SeedIDs(seed ^ uint64(os.Getpid())<<32 ^ simrt.Mix(uint64(len(dir))))
+	// identifiers must not repeat those of an earlier process on the same directory, and must be a
+	// function of the seed alone: a counter file next to the database counts the incarnations
+	inc := uint64(0)
+	incFile := filepath.Join(dir, "incarnation")
+	if b, err := os.ReadFile(incFile); err == nil && !fresh {
+		inc, _ = strconv.ParseUint(strings.TrimSpace(string(b)), 10, 64)
+	}
+	inc++
+	os.WriteFile(incFile, []byte(strconv.FormatUint(inc, 10)), 0o644)
+	simrt.SeedIDs(seed ^ simrt.Mix(inc))
 	if fresh {
 		simrt.SeedIDs(seed)
 	}
